@@ -111,5 +111,6 @@ Definition fc2_eqb (a b : fc2) : bool :=
   && sco_eqb (c_renter a) (c_renter b) && sco_eqb (c_host a) (c_host b)
   && (c_missed_host a =? c_missed_host b) && (c_collateral a =? c_collateral b)
   && beq (c_renter_key a) (c_renter_key b) && beq (c_host_key a) (c_host_key b) && (c_revnum a =? c_revnum b)
-  && beq (c_renter_sig a) (c_renter_sig b) && beq (c_host_sig a) (c_host_sig b).
+  && beq (c_renter_sig a) (c_renter_sig b) && beq (c_host_sig a) (c_host_sig b)
+  && beq (c_sighash a) (c_sighash b) && (c_tax a =? c_tax b).   (* supplied values: functions of the fields above *)
 Definition fce2_eqb (a b : fce2) : bool := beq (v2_id a) (v2_id b) && fc2_eqb (v2_fc a) (v2_fc b).
